@@ -84,6 +84,7 @@ REST_SENDS = {
     'R_UPDBAD': ('POST', 'send/update', {'attr': {'1': 0, '2': [], '3': 'not-an-address', '5': 100}, 'nlri': ['198.51.100.0/24']}),
     'R_UPDNOATTR': ('POST', 'send/update', {'nlri': ['198.51.100.0/24']}),
     'R_BINBAD': ('POST', 'send/bin_update', {'binary_data': 'zz'}),
+    'R_UPDUNKATTR': ('POST', 'send/update', {'attr': {'99': '00'}, 'nlri': ['198.51.100.0/24']}),      # only an attribute the encoder does not know
     # read-only requests outside /v1/peer/: the API root (no credentials needed) and the peer list - they change nothing
     'R_ROOT': ('GET', '/v1/', None, None),
     'R_PEERS': ('GET', '/v1/peers', None),
